@@ -76,7 +76,7 @@ func main() {
 	if *prop == "all" {
 		ids = nil
 		for id := range props {
-			if id != "DBG" {
+			if strings.HasPrefix(id, "C") {
 				ids = append(ids, id)
 			}
 		}
